@@ -313,8 +313,8 @@ def nud__child_path(self: XPathToken) -> XPathToken:
 @method('//')
 @method('/')
 def led__child_or_descendant_path(self: XPathToken, left: XPathToken) -> XPathToken:
-    if left.symbol in ('/', '//', ':', '[', '$'):
-        pass
+    if left.symbol in ('/', '//', ':', '[', '$', '(') or left.label == 'function':
+        pass  # includes the filter expressions of XPath 1.0: (expr)/step and f()/step
     elif left.label not in self.parser.PATH_STEP_LABELS and \
             left.symbol not in self.parser.PATH_STEP_SYMBOLS:
         raise self.wrong_syntax()
